@@ -161,6 +161,12 @@ fn custom_multi(_: &mut ZooA, d: Dist) {
     rec(format!("custom_multi({})", d.0));
 }
 
+/// One custom parameter twice in a row, then a different custom parameter.
+#[when(expr = "mix {color} and {color} over {dist}")]
+fn mix(_: &mut ZooA, a: Color, b: Color, d: Dist) {
+    rec(format!("mix({a:?},{b:?},{})", d.0));
+}
+
 #[given(expr = "wait {dur3} then {word} {int}")]
 fn custom_multi3(_: &mut ZooA, d: Dur3, w: String, n: i32) {
     rec(format!("custom_multi3({},{w},{n})", d.0));
@@ -474,6 +480,21 @@ pub fn entries() -> Vec<Entry> {
             let n = m.strip_suffix("km").or_else(|| m.strip_suffix("mi"))?;
             digits(n).then(|| Expect::Call(format!("custom_multi({n})")))
         }),
+        e(0, When, "mix", |t| {
+            let v = toks(t);
+            if v.len() != 6 || v[0] != "mix" || v[2] != "and" || v[4] != "over" {
+                return None;
+            }
+            let col = |c: &str| match c {
+                "red" => Some("Red"),
+                "green" => Some("Green"),
+                "blue" => Some("Blue"),
+                _ => None,
+            };
+            let (a, b) = (col(v[1])?, col(v[3])?);
+            let n = v[5].strip_suffix("km").or_else(|| v[5].strip_suffix("mi"))?;
+            digits(n).then(|| Expect::Call(format!("mix({a},{b},{n})")))
+        }),
         e(0, Given, "custom_multi3", |t| {
             let v = toks(t);
             if v.len() != 5 || v[0] != "wait" || v[2] != "then" || !no_ws(v[3]) || !int(v[4]) {
@@ -641,6 +662,7 @@ pub fn texts(max_tokens: usize) -> Vec<String> {
     // positive texts and near misses of every entry
     for base in [
         "a literal step", "meta (x) .* a+ [b] ^$", "meta x .* a+ [b] ^$", "meta (x) yy a+ [b] ^$",
+        "mix red and blue over 5km", "mix green and green over 12mi", "mix red and blue over red", "mix red and 5km over 5km",
         "regex 12 and foo", "regex 4294967296 and foo", "regex 12 and foo-bar", "regex 12 and é_1",
         "unanchored 5", "unanchored 5 trailing words", "unanchored 5x", "un unanchored 5", "unanchored x",
         "unanchored 99999999999999999999",
